@@ -258,6 +258,8 @@ func (a *action) Rollback(ctx context.Context, bac *tm.BusinessActionContext) (b
 }
 func (a *action) GetActionName() string { return a.name }
 
+var lateSeq int64
+
 var (
 	tccOnce  sync.Once
 	tccProxy *tcc.TCCServiceProxy
@@ -328,6 +330,13 @@ func runReconnect(c Case) *pt.Failure {
 		}
 		preBranch = bs[0]
 	}
+	lateName := ""
+	if c.LossAt == "during-registration" {
+		// a further action is registered while the connection breaks: its announcement is lost in flight
+		lateName = fmt.Sprintf("c19-late-%d", atomic.AddInt64(&lateSeq, 1))
+		tc.Script(message.RegisterRMRequest{}.GetTypeCode(), faketc.Action{Kind: faketc.TransportError})
+		_, _ = tcc.NewTCCServiceProxy(&action{name: lateName})
+	}
 	for i := 0; i < c.Losses; i++ {
 		tc.Lose(s)
 		s = tc.Open()
@@ -347,6 +356,17 @@ func runReconnect(c Case) *pt.Failure {
 			ctx.Rec.Excluded("C19-K1") // known finding: clause skipped, the rest of the history is still judged
 		} else if !rmOK {
 			return pt.Failf("C19/reconnect/no-rm-registration", "session %d (after loss %d) received no RegisterRMRequest naming resource %q: the coordinator cannot route phase two for it", n, i+1, tccAct.name)
+		}
+	}
+	if lateName != "" {
+		n := s.N
+		if !waitFor(500*time.Millisecond, func() bool {
+			return sessionEvents(n, func(b interface{}) bool {
+				r, ok := b.(message.RegisterRMRequest)
+				return ok && strings.Contains(r.ResourceIds, lateName)
+			}) > 0
+		}) {
+			return pt.Failf("C19/reconnect/no-rm-registration/announcement-lost-in-flight", "resource %q was registered while the connection broke (its announcement failed); session %d, opened afterwards, received no RegisterRMRequest naming it", lateName, n)
 		}
 	}
 	// a new global transaction can begin on the new session
@@ -472,7 +492,7 @@ func TestPropReconnect(t *testing.T) {
 		if n++; n > slowCap() {
 			return
 		}
-		c := Case{Kind: "reconnect", Losses: rapid.IntRange(1, 3).Draw(rt, "losses"), LossAt: rapid.SampledFrom([]string{"idle", "between-phases"}).Draw(rt, "lossAt"), Bystander: rapid.Bool().Draw(rt, "bystander")}
+		c := Case{Kind: "reconnect", Losses: rapid.IntRange(1, 3).Draw(rt, "losses"), LossAt: rapid.SampledFrom([]string{"idle", "between-phases", "during-registration"}).Draw(rt, "lossAt"), Bystander: rapid.Bool().Draw(rt, "bystander")}
 		ctx.Rec.Case("reconnect", true, fmt.Sprintf("%d|%s|%v", c.Losses, c.LossAt, c.Bystander), c, "kind:reconnect", "loss-at:"+c.LossAt, fmt.Sprintf("bystander:%v", c.Bystander))
 		ctx.Judge(rt, "reconnect", runCase(c), c)
 	})
